@@ -158,21 +158,31 @@ func runControls(rules []string) ([]controlResult, []string) {
 	var out []controlResult
 	for _, r := range rules {
 		cr := controlResult{Rule: r}
+		tokRe := regexp.MustCompile("Bad" + r + "[A-Za-z0-9_]*")
+		fired := map[string]bool{}
+		seenTok := map[string]bool{}
 		for _, ob := range all {
 			if ob.Rule != r {
 				continue
 			}
-			isBad := strings.Contains(ob.Key, "Bad"+r)
+			tok := tokRe.FindString(ob.Key)
 			isGood := strings.Contains(ob.Key, "Good")
 			switch {
-			case isBad && ob.Verdict == Violated:
-				cr.Fired = append(cr.Fired, ob.Key)
-			case isBad:
-				cr.Problems = append(cr.Problems, fmt.Sprintf("rule %s is %s on its bad fixture %s", r, ob.Verdict, ob.Key))
+			case tok != "":
+				seenTok[tok] = true
+				if ob.Verdict == Violated {
+					fired[tok] = true
+					cr.Fired = append(cr.Fired, ob.Key)
+				}
 			case isGood && (ob.Verdict == Violated || ob.Verdict == Undecided):
 				cr.Problems = append(cr.Problems, fmt.Sprintf("rule %s fires on good fixture %s: %s", r, ob.Key, ob.Witness))
 			case isGood:
 				cr.Silent++
+			}
+		}
+		for _, tok := range sortedKeys(seenTok) {
+			if !fired[tok] {
+				cr.Problems = append(cr.Problems, fmt.Sprintf("rule %s did not fire on its bad fixture %s", r, tok))
 			}
 		}
 		if len(cr.Fired) == 0 {
